@@ -18,6 +18,28 @@ class Unsupported(Exception):
     pass
 
 
+_QCACHE = {}
+
+
+def _has_quantifier(f):
+    k = f.get_id()
+    if k in _QCACHE:
+        return _QCACHE[k]
+    res = False
+    stack = [f]
+    seen = set()
+    while stack:
+        t = stack.pop()
+        if t.get_id() in seen:
+            continue
+        seen.add(t.get_id())
+        if z3.is_quantifier(t):
+            res = True; break
+        stack.extend(t.children())
+    _QCACHE[k] = res
+    return res
+
+
 # ---- source -----------------------------------------------------------------------------------
 _SRC_CACHE = {}
 
@@ -129,6 +151,15 @@ class Raised:
         self.exc = exc
 
 
+class Empty:
+    """a freshly created empty list / dict / set"""
+    def __init__(self, kind):
+        self.kind = kind
+
+    def __repr__(self):
+        return f"<empty {self.kind}>"
+
+
 class Path:
     def __init__(self, pc=None, env=None, heap=None, writes=None, ghost=None):
         self.pc = list(pc or [])
@@ -168,10 +199,14 @@ class Exec:
 
     # ---- solver helpers ----------------------------------------------------------------------
     def feasible(self, pc):
+        """Path pruning.  Sound over-approximation: only the quantifier-free conjuncts are consulted, under a short
+        budget; `unknown` counts as feasible (an infeasible path that survives only yields vacuous obligations)."""
         if not self.feas:
             return True
-        s = z3.Solver(); s.set("timeout", 3000)
-        s.add(*self.axioms); s.add(*pc)
+        s = z3.Solver(); s.set("timeout", 400)
+        for f in pc:
+            if not _has_quantifier(f):
+                s.add(f)
         r = s.check()
         if r == z3.unsat:
             self.paths_pruned += 1
@@ -433,6 +468,8 @@ class Exec:
             return z3.BoolVal(True)
         if isinstance(v, tuple):
             return z3.BoolVal(len(v) > 0)
+        if isinstance(v, Empty):
+            return z3.BoolVal(False)
         raise Unsupported(f"truth value of {v!r}")
 
     def toint(self, v, node=None):
@@ -499,7 +536,7 @@ class Exec:
 
     def e_List(self, e, p):
         if not e.elts:
-            return [(SymObj("list", "fresh_list", model=None), p)]
+            return [(Empty("list"), p)]
         return self.e_Tuple(e, p)
 
     def e_Attribute(self, e, p):
@@ -554,9 +591,9 @@ class Exec:
         self._prop_cache[key] = res
         return res
 
-    def inline(self, fn, args, kwargs, path, node):
-        """Inline a (small) function body: bind parameters, run, map outcomes."""
-        env = {}
+    def inline(self, fn, args, kwargs, path, node, base_env=None):
+        """Inline a (small) function body: bind parameters, run, map outcomes (base_env: enclosing scope of a closure)."""
+        env = dict(base_env or {})
         params = [a.arg for a in fn.args.args]
         for nm, v in zip(params, args):
             env[nm] = v
@@ -918,6 +955,8 @@ class Exec:
             return [(v.ident, q)]
         if isinstance(v, SymObj):
             return [(v.ref, q)]
+        if hasattr(v, "ident"):
+            return [(v.ident, q)]
         self.unsupported(e, f"id({v!r})")
 
     def b_len(self, args, kwargs, q, e):
@@ -940,6 +979,16 @@ class Exec:
 
     def b_bool(self, args, kwargs, q, e):
         return [(self.truth(args[0]), q)]
+
+    def b_dict(self, args, kwargs, q, e):
+        if args or kwargs:
+            self.unsupported(e, "dict(...) with arguments")
+        return [(Empty("dict"), q)]
+
+    def b_set(self, args, kwargs, q, e):
+        if args or kwargs:
+            self.unsupported(e, "set(...) with arguments")
+        return [(Empty("set"), q)]
 
 
 # ---- discharging ---------------------------------------------------------------------------------
